@@ -7,6 +7,19 @@ HERE = os.path.dirname(os.path.abspath(__file__))
 
 CLAIMED = {
     # id: (technique, level text, level note, design ref)
+    "C04": ("def-use classification of stores into existing NearSQL objects + post-dominance of the cache-key update; value-kind dataflow for the None guard of the CTE cache; emitter/re-wrap field matrix; syntactic-context classification of every option read (ast)",
+            "CTE-elimination cache key is coherent with step content (every redefinition of an existing step is followed by an "
+            "ops_key update; keyless steps are never cached; key includes columns); the extend-merge guard and the declared "
+            "dependencies of windowed terms are complete; to_with_form of each NearSQL kind forwards every field its emitter "
+            "reads; each sql_format_options read sits in a layout-only context.",
+            "Trusted: the table of layout-only option contexts. Not decided: that WITH form and nested form are equivalent SQL.",
+            "DESIGN.md 6/C04"),
+    "C09": ("def-use polarity of group keys in the SQL project generator, guard-dependency of the un-grouped case, third-party API contract (pandas groupby dropna) on every user-keyed groupby (ast)",
+            "SQL: all group keys are selected and grouped, never filtered by the pruning set, an un-grouped project stays "
+            "aggregating under pruning and the emitter never falls back to `*` while the step has terms; Pandas: every groupby "
+            "on user keys keeps the null-key group; Polars: declared keys, one row for empty un-grouped input.",
+            "Trusted: pandas/polars groupby null-key contracts (table 3.2 of DESIGN.md). Not decided: row counts on data.",
+            "DESIGN.md 6/C09"),
     "C06": ("set-algebra entailment over the merge function (symbolic facts from guards on every CFG path) + def-use guard dependencies + delegation parameter coverage (ast)",
             "Decides the structural conditions under which the builder's simplifications preserve meaning: the extend-merge "
             "guard entails used(ops2) ∩ keys(ops1) = ∅ on every merged return path and ops2 is the last writer; the merged node "
